@@ -7,6 +7,8 @@ import (
 	"go/token"
 	"go/types"
 	"strings"
+
+	"golang.org/x/tools/go/cfg"
 )
 
 // Std is the standard abstract interpreter used by most path rules.  On top
@@ -805,6 +807,10 @@ func (st *Std) inline(call *ast.CallExpr, n ast.Node, s S, cl *Client) []S {
 	errT := types.Universe.Lookup("error").Type()
 	for _, e := range res.Exits {
 		if e.Return == nil {
+			// a helper without results that runs off its end
+			if (cf.Type.Results == nil || len(cf.Type.Results.List) == 0) && !endsNoReturn(st.F.Prog, cf, e.Block) {
+				out = append(out, st.stripLocals(e.State, lo, hi))
+			}
 			continue
 		}
 		s2 := e.State
@@ -880,4 +886,25 @@ func (st *Std) stripLocals(s2 S, lo, hi token.Pos) S {
 		}
 	}
 	return s2
+}
+
+// endsNoReturn reports whether block b of f ends in panic or a call that does
+// not return (such an exit is not a way back into the caller).
+func endsNoReturn(p *Prog, f *Func, b *cfg.Block) bool {
+	if b == nil || len(b.Nodes) == 0 {
+		return false
+	}
+	es, ok := b.Nodes[len(b.Nodes)-1].(*ast.ExprStmt)
+	if !ok {
+		return false
+	}
+	call, ok := ast.Unparen(es.X).(*ast.CallExpr)
+	if !ok {
+		return false
+	}
+	obj := Callee(f.Info(), call)
+	if bi, ok := obj.(*types.Builtin); ok && bi.Name() == "panic" {
+		return true
+	}
+	return noReturn[QualName(obj)]
 }
